@@ -245,11 +245,8 @@ var _ indexIterator = (*inIndexIterator)(nil)
 
 // nextIterator initializes the next index iterator based on the current value index.
 func (iter *inIndexIterator) nextIterator() (bool, error) {
-	if iter.nextValIndex > 0 {
-		err := iter.indexIterator.Close()
-		if err != nil {
-			return false, err
-		}
+	if err := iter.Close(); err != nil {
+		return false, err
 	}
 
 	if iter.nextValIndex >= len(iter.inValues) {
@@ -296,6 +293,11 @@ func (iter *inIndexIterator) createIteratorForNextValue() error {
 func (iter *inIndexIterator) Init(ctx context.Context, store corekv.ReaderWriter) error {
 	iter.ctx = ctx
 	iter.store = store
+	// (re)start from the first value
+	if err := iter.Close(); err != nil {
+		return err
+	}
+	iter.nextValIndex = 0
 	var err error
 	iter.hasIterator, err = iter.nextIterator()
 	return err
@@ -319,8 +321,14 @@ func (iter *inIndexIterator) Next() (indexIterResult, error) {
 	return indexIterResult{}, nil
 }
 
+// Close closes the iterator of the value that is currently being scanned, if any: the consumer
+// may stop before the last value is exhausted (limit), or re-initialise the iterator.
 func (iter *inIndexIterator) Close() error {
-	return nil
+	if !iter.hasIterator || iter.indexIterator == nil {
+		return nil
+	}
+	iter.hasIterator = false
+	return iter.indexIterator.Close()
 }
 
 // newEqSingleIndexIterator creates a new eqSingleIndexIterator for fetching exactly one index
